@@ -25,11 +25,22 @@ pub proof fn lemma_le_facts()
         forall|s: Seq<u8>| #![trigger un_le32(s)] s.len() == 4 ==> le32(un_le32(s)) == s,
         forall|s: Seq<u8>| #![trigger un_le64(s)] s.len() == 8 ==> le64(un_le64(s)) == s,
 {
-    vstd::bytes::lemma_auto_spec_u16_to_from_le_bytes();
-    vstd::bytes::lemma_auto_spec_u32_to_from_le_bytes();
-    vstd::bytes::lemma_auto_spec_u64_to_from_le_bytes();
-    vstd::bytes::lemma_auto_spec_u128_to_from_le_bytes();
+    // (contract unchanged; the proof goes through per-value lemmas because instantiating vstd's quantified lemmas under
+    // the wrapper triggers `leN(x)` depends on Z3's term order and failed in units with a different context)
+    assert forall|x: u16| #![trigger le16(x)] le16(x).len() == 2 && un_le16(le16(x)) == x by { lemma_le16_at(x); }
+    assert forall|x: u32| #![trigger le32(x)] le32(x).len() == 4 && un_le32(le32(x)) == x by { lemma_le32_at(x); }
+    assert forall|x: u64| #![trigger le64(x)] le64(x).len() == 8 && un_le64(le64(x)) == x by { lemma_le64_at(x); }
+    assert forall|x: u128| #![trigger le128(x)] le128(x).len() == 16 by { lemma_le128_at(x); }
+    assert forall|s: Seq<u8>| #![trigger un_le16(s)] s.len() == 2 implies le16(un_le16(s)) == s by { lemma_un_le16_at(s); }
+    assert forall|s: Seq<u8>| #![trigger un_le32(s)] s.len() == 4 implies le32(un_le32(s)) == s by { lemma_un_le32_at(s); }
+    assert forall|s: Seq<u8>| #![trigger un_le64(s)] s.len() == 8 implies le64(un_le64(s)) == s by { lemma_un_le64_at(s); }
 }
+pub proof fn lemma_le16_at(x: u16) ensures le16(x).len() == 2 && un_le16(le16(x)) == x { vstd::bytes::lemma_auto_spec_u16_to_from_le_bytes(); }
+pub proof fn lemma_le32_at(x: u32) ensures le32(x).len() == 4 && un_le32(le32(x)) == x { vstd::bytes::lemma_auto_spec_u32_to_from_le_bytes(); }
+pub proof fn lemma_le64_at(x: u64) ensures le64(x).len() == 8 && un_le64(le64(x)) == x { vstd::bytes::lemma_auto_spec_u64_to_from_le_bytes(); }
+pub proof fn lemma_un_le16_at(s: Seq<u8>) requires s.len() == 2 ensures le16(un_le16(s)) == s { vstd::bytes::lemma_auto_spec_u16_to_from_le_bytes(); }
+pub proof fn lemma_un_le32_at(s: Seq<u8>) requires s.len() == 4 ensures le32(un_le32(s)) == s { vstd::bytes::lemma_auto_spec_u32_to_from_le_bytes(); }
+pub proof fn lemma_un_le64_at(s: Seq<u8>) requires s.len() == 8 ensures le64(un_le64(s)) == s { vstd::bytes::lemma_auto_spec_u64_to_from_le_bytes(); }
 
 pub struct ByteSeq { pub v: Vec<u8> }
 
@@ -270,6 +281,14 @@ pub fn slice_try_into<const N: usize>(s: &[u8]) -> (r: Result<[u8; N], TryFromSl
     ensures
         s@.len() == N ==> (r matches Ok(a) && a@ == s@),
         s@.len() != N ==> r is Err,
+{ unimplemented!() }
+
+//   `VEC.try_into()`          -> `vec_try_into(VEC)`        <Vec<u8> as TryInto<[u8; N]>>: Ok(content) iff the length is N, else Err(the vec)
+#[verifier::external_body]
+pub fn vec_try_into<const N: usize>(v: Vec<u8>) -> (r: Result<[u8; N], Vec<u8>>)
+    ensures
+        v@.len() == N ==> (r matches Ok(a) && a@ == v@),
+        v@.len() != N ==> r is Err,
 { unimplemented!() }
 
 pub open spec fn un_le128(s: Seq<u8>) -> u128 { vstd::bytes::spec_u128_from_le_bytes(s) }
